@@ -1,7 +1,9 @@
 """C12 -- splitting a problem partitions its search space (structural clauses)."""
 from ..rules import model
 
-EXPLANATION = "tmp"
+EXPLANATION = (
+    "Static analysis of Problem.split: the number of parts is provably bounded by the domain size before the loop (clamp), each part is a deep copy and the only store goes through the copy to shr_domains_lst[var_idx], consecutive parts are adjacent (next min = this max + 1, on every path of the size/remainder branch), the first part starts at the domain minimum. The identity 'last part ends at the maximum' is arithmetic, declared undecided."
+)
 
 
 def check(ctx, prog):
